@@ -9,6 +9,17 @@ pub fn register(v: &mut Vec<(&'static str, crate::Harness)>) {
     v.push(("h_c06_step", h_c06_step));
 }
 
+/// the catalogue forests, plus forest 0 built with text consolidation off (three adjacent text
+/// nodes) and consolidation switched on again before the call
+fn build_or_toggled(shape: usize) -> World {
+    if shape < SHAPES {
+        return build(shape, true);
+    }
+    let mut w = build(0, false);
+    w.xot.set_text_consolidation(true);
+    w
+}
+
 fn pick(w: &World, name: &'static str) -> Node {
     w.nodes[sym::choose(name, w.nodes.len())]
 }
@@ -56,20 +67,21 @@ fn one_call(w: &mut World, tag: (&'static str, &'static str, &'static str, &'sta
 /// C04: after one (quick) or two (thorough) arbitrary calls - successful or
 /// refused - on any live nodes, every tree is structurally valid.
 pub fn h_c04_step() {
-    let shape = sym::choose("shape", SHAPES);
-    let mut w = build(shape, true);
+    let shape = sym::choose("shape", SHAPES + 1);
+    let mut w = build_or_toggled(shape);
+    let never_off = shape < SHAPES;
     let calls = sym::param("CALLS", 1);
     let (_ok, new1) = one_call(&mut w, ("opkind", "op", "a", "b"));
     w.nodes.extend(new1);
     let all = collect_all(&w.xot, &w.nodes);
     w.nodes = all;
-    check_forest(&w.xot, &w.nodes, true);
+    check_forest(&w.xot, &w.nodes, never_off);
     if calls > 1 {
         let (_ok, new2) = one_call(&mut w, ("opkind2", "op2", "a2", "b2"));
         w.nodes.extend(new2);
         let all = collect_all(&w.xot, &w.nodes);
         w.nodes = all;
-        check_forest(&w.xot, &w.nodes, true);
+        check_forest(&w.xot, &w.nodes, never_off);
     }
     // a removed node stays removed, also after new nodes are created
     let removed: Vec<Node> = w.nodes.iter().copied().filter(|n| w.xot.is_removed(*n)).collect();
@@ -85,8 +97,8 @@ pub fn h_c04_step() {
 /// C06: a call on live nodes never panics (engine: every panic edge is a
 /// finding) and a refused call changes nothing observable.
 pub fn h_c06_step() {
-    let shape = sym::choose("shape", SHAPES);
-    let mut w = build(shape, true);
+    let shape = sym::choose("shape", SHAPES + 1);
+    let mut w = build_or_toggled(shape);
     let all0 = collect_all(&w.xot, &w.nodes);
     w.nodes = all0;
     let before = snapshot(&w.xot, &w.nodes);
